@@ -233,6 +233,13 @@ class AGraph:
             return self.name
         raise Unsupported(f"DiGraph.{name}")
 
+    def pyvc_contains(self, interp, node):
+        # `n in G` is `n in G.nodes`
+        return ANodeView(self).pyvc_contains(interp, node)
+
+    def pyvc_getitem(self, interp, node):
+        raise Unsupported("G[n] (adjacency of a node) on the abstract graph")
+
     def pyvc_is_none(self):
         return False
 
